@@ -76,8 +76,13 @@ def handle (op : String) (j : Json) : Option (Except String Json) :=
       let r := C05.srl (← nat j "i") (← nat j "j") (← J.gq (← J.field j "coef")) (← nat j "n")
       .ok (J.obj [("case", J.ofNat r.1), ("n_ops", J.ofNat r.2.1.length),
                   ("op", J.ofOp (C05.qubitOperatorCreation tol r.2.1 r.2.2))])
+  | "c05.srl_ok" => some do
+      .ok (Json.bool (C05.srlOk tol (← nat j "i") (← nat j "j") (← J.gq (← J.field j "coef")) (← nat j "n")))
   | "c05.iop" => some do
       .ok (J.ofOp (C05.bkInteractionOp tol (← nat j "N") (← nat j "n") (← J.gq (← J.field j "constant"))
+        (← gqList (← J.field j "one")) (← gqList (← J.field j "two"))))
+  | "c05.iop_ok" => some do
+      .ok (Json.bool (C05.bkInteractionOpOk tol (← nat j "N") (← nat j "n") (← J.gq (← J.field j "constant"))
         (← gqList (← J.field j "one")) (← gqList (← J.field j "two"))))
   | "c05.enc" => some do
       .ok (J.ofNat (Spec.C05.enc (← parseVariant (← J.field j "variant")) (← nat j "n") (← nat j "s")))
